@@ -22,6 +22,7 @@ import (
 type replayFile struct {
 	Harness string            `json:"harness"`
 	Values  map[string]string `json:"values"` // symbol -> decimal uint64
+	Thor    bool              `json:"thorough"`
 }
 
 var (
@@ -77,6 +78,26 @@ func IntRange(name string, lo, hi int) int {
 		return lo
 	}
 	return v
+}
+
+// FloatFrom is a value drawn from a small finite list (symbolic selector).
+func FloatFrom(name string, list []float64) float64 {
+	i := int(raw(name))
+	if i < 0 || i >= len(list) {
+		AssumeBad = true
+		return list[0]
+	}
+	return list[i]
+}
+
+// IntFrom is an int drawn from a small finite list (symbolic selector).
+func IntFrom(name string, list []int) int {
+	i := int(raw(name))
+	if i < 0 || i >= len(list) {
+		AssumeBad = true
+		return list[0]
+	}
+	return list[i]
 }
 
 // Bytes is a string of n symbolic bytes named name_0 .. name_{n-1}.
@@ -173,6 +194,10 @@ func Reach(label string) { Reached = append(Reached, label) }
 // Observe records a concrete observation of this path for conformance replay: under
 // symgo the string must be concrete on the path; natively it is printed.
 func Observe(s string) { Observed = append(Observed, s) }
+
+// Thorough reports whether the check runs in the thorough tier (harnesses widen their
+// bounds there).
+func Thorough() bool { return replay.Thor }
 
 // MapOrders switches exploration of Go's map iteration order on: under symgo every
 // range over a map with >= 2 entries draws its order from a symbolic permutation.
